@@ -200,6 +200,20 @@ def replay(w):
         if 'expect_cycle' in w:
             from . import witness_order
             return not witness_order.verdict_ok(w['expect_cycle'], r)
+        if 'expect_code_counts' in w:
+            if r.get('status') in ('timeout', 'build-failed', 'unknown'):
+                return False
+            if r.get('status') != 'ok':
+                return True
+            codes = [c for c in r['result'].get('errors', '[]').strip('[]').split(',') if c]
+            return any(codes.count(c) != n for c, n in w['expect_code_counts'].items())
+        if 'expect_codes_present' in w:
+            if r.get('status') in ('timeout', 'build-failed', 'unknown'):
+                return False
+            if r.get('status') != 'ok':
+                return True
+            codes = [c for c in r['result'].get('errors', '[]').strip('[]').split(',') if c]
+            return any(c not in codes for c in w['expect_codes_present']) or any(c in codes for c in w.get('expect_codes_absent', []))
         if w.get('expect_scope'):
             from . import witness_scope
             return not witness_scope.replay_ok(w, r)
